@@ -16,7 +16,7 @@ ALPHA = [0x00, 0x01, 0x04, 0x08, 0x80, 0xff]
 
 def P(kind, b, **meta):
     if isinstance(kind, tuple):
-        ks = f"(custom {kind[1]} {kind[2]})"
+        ks = f"({kind[0]} {kind[1]} {kind[2]})"
     else:
         ks = kind
     m = {"op": "parse", "kind": kind, "bytes": b}
@@ -524,7 +524,10 @@ def bye_empty_reason(r):
 
 
 def custom_kinds():
-    return [("custom", pt, mn) for pt in gen.CUSTOM_PTS for mn in PARSE_MINS]
+    """third-party parser kinds: the family with the default MAX_COUNT and a subset of the family
+    that overrides it with 16 (the crate must treat it as a maximum nobody enforces, never as a mask)"""
+    return ([("custom", pt, mn) for pt in gen.CUSTOM_PTS for mn in PARSE_MINS]
+            + [("custom16", pt, mn) for pt in (242, 200, 207) for mn in PARSE_MINS])
 
 
 def helper_stream(r, tier):
